@@ -1,0 +1,15 @@
+//go:build verif
+// +build verif
+
+package hap
+
+// Used only by the verification harness (build tag "verif").
+
+// VerifResponseWritten does to a session what Connection.Write does after it has written a response:
+// a cryptographer negotiated by the request becomes the current one. The harness uses it where it
+// serves requests in-process, i.e. without a Connection that writes the response.
+func VerifResponseWritten(s Session) {
+	if sess, ok := s.(*session); ok {
+		sess.didWrite()
+	}
+}
